@@ -137,24 +137,26 @@ class C14(Check):
         q = tier == 'quick'
         nf = len(self.fragile())
         return {
-            'smooth_plain': 700 if q else 14000,
-            'smooth_trunc': 700 if q else 14000,
-            'median_whole': 600 if q else 10000,
-            'median_run1d': 500 if q else 10000,
-            'median_run2d': 400 if q else 8000,
-            'uniq_sorted': 600 if q else 10000,
-            'uniq_index': 700 if q else 12000,
-            'rebin_float': 600 if q else 9000,
-            'rebin_int': 500 if q else 8000,
-            'rebin_fragile': 2 * nf if q else 12 * nf,
-            'rebin_grid1d': 300 if q else 39 * 69 * 2,
-            'rebin_reject': 300 if q else 4000,
+            'smooth_plain': 3500 if q else 60000,
+            'smooth_trunc': 3500 if q else 60000,
+            'median_whole': 3000 if q else 50000,
+            'median_run1d': 2500 if q else 40000,
+            'median_run2d': 2000 if q else 30000,
+            'uniq_sorted': 3000 if q else 50000,
+            'uniq_index': 3500 if q else 60000,
+            'rebin_float': 3000 if q else 45000,
+            'rebin_int': 2400 if q else 36000,
+            'rebin_fragile': 4 * nf if q else 24 * nf,
+            'rebin_grid1d': 1000 if q else 39 * 69 * 2,
+            'rebin_reject': 1200 if q else 12000,
         }
 
     # ------------------------------------------------------------------ generators
     def gen(self, cls, rng, i):
+        N = 64 if self.tier == 'quick' else 160          # thorough: longer arrays, larger 2-D images
+        N2 = 10 if self.tier == 'quick' else 16
         if cls in ('smooth_plain', 'smooth_trunc'):
-            n = rng.randint(1, 8) if rng.random() < 0.35 else rng.randint(1, 64)
+            n = rng.randint(1, 8) if rng.random() < 0.35 else rng.randint(1, N)
             m = rng.random()
             if m < 0.15:
                 w = n
@@ -170,20 +172,20 @@ class C14(Check):
         if cls == 'median_whole':
             dt = rng.choice(['f8', 'f8', 'f4'])
             if rng.random() < 0.7:
-                shape = [rng.randint(1, 8) if rng.random() < 0.4 else rng.randint(1, 64)]
+                shape = [rng.randint(1, 8) if rng.random() < 0.4 else rng.randint(1, N)]
             else:
                 shape = [rng.randint(1, 8), rng.randint(1, 8)]
             return {'fn': 'median', 'dtype': dt, 'shape': shape, 'x': _floats(rng, _prod(shape), dt),
                     'even': rng.random() < 0.5}
         if cls == 'median_run1d':
             dt = rng.choice(['f8', 'f8', 'f4'])
-            n = rng.randint(1, 9) if rng.random() < 0.35 else rng.randint(1, 64)
+            n = rng.randint(1, 9) if rng.random() < 0.35 else rng.randint(1, N)
             ws = list(range(1, n + 1, 2))
             w = ws[-1] if rng.random() < 0.15 else rng.choice(ws)
             return {'fn': 'run1d', 'dtype': dt, 'x': _floats(rng, n, dt), 'w': w}
         if cls == 'median_run2d':
             dt = rng.choice(['f8', 'f8', 'f4'])
-            nr, nc = rng.randint(1, 10), rng.randint(1, 10)
+            nr, nc = rng.randint(1, N2), rng.randint(1, N2)
             if rng.random() < 0.3:
                 nr, nc = max(nr, 3), max(nc, 3)
             ws = list(range(1, min(nr, nc) + 1, 2))
